@@ -582,6 +582,12 @@ def collect(ix, R):
 
 
 def run(ix, R):
+    _run(ix, R)
+    from rules.common import memo_obligation
+    memo_obligation(ix, R, 'M.memo', ['taurex/optimizer/optimizer.py', 'taurex/data/fittable.py'], 'the retrieval set-up')
+
+
+def _run(ix, R):
     mutators(ix, R)
     prior_table(ix, R)
     compile_fn(ix, R)
